@@ -970,6 +970,11 @@ where
         self.policy.inner.lock().verif_window()
     }
 
+    /// whether the admission filter's doorkeeper reports an index hash as seen in this window
+    pub fn verif_doorkeeper_has(&self, index: u64) -> bool {
+        self.policy.inner.lock().verif_doorkeeper_has(index)
+    }
+
     /// per-entry internal cost
     pub fn verif_item_size(&self) -> usize {
         self.store.item_size()
